@@ -60,6 +60,8 @@ def main():
             jobs = int(args[i + 1]); i += 2
         elif args[i] == "--seeded":
             seeded = True; i += 1
+        elif args[i] == "--neutral":
+            i += 1
         elif args[i] == "--seeded-only":
             seeded = True; only_seeded = True; i += 1
         else:
@@ -79,6 +81,15 @@ def main():
         for patch in sorted(glob.glob(os.path.join(d, "*.patch"))):
             if not only_seeded:
                 tasks.append((prop, patch, "SILENT"))
+    for d in sorted(glob.glob(os.path.join(V, "neutral", "*"))):
+        mf = os.path.join(d, "meta.json")
+        if not os.path.exists(mf) or only_seeded and "--neutral" not in sys.argv:
+            continue
+        meta = json.load(open(mf))
+        for prop in meta.get("silent_for", [meta.get("property")]):
+            if props and prop not in props:
+                continue
+            tasks.append((prop, os.path.join(d, "patch.diff"), "SILENT"))
     if seeded:
         for d in sorted(glob.glob(os.path.join(V, "seeded", "*"))):
             mf = os.path.join(d, "meta.json")
